@@ -26,6 +26,7 @@ EXPLANATION = (
     'start/end, total_time): each must receive the operation\'s operator with the operation\'s operand. FRAME: no other path is '
     'written. CONCAT: offset dataflow, MergeFrom on both branches, ValueError precondition, comparator shape, descending index '
     'loop after a time sort. REPEAT: ceil + concatenate + extract(0, duration). ADJUST: guards and the zero-length skip.')
+EXPLANATION += (' ' + 'ADJUST/event-negative now requires that the value compared with 0 is the very value stored into <event>.time and that the comparison precedes the store.')
 TRUSTED = ['protobuf copy semantics; schema text equals the generated module (pyi cross-check)']
 NOT_DECIDED = ['the numeric values of moved times', 'monotonicity of user-supplied time maps']
 ASSUMPTIONS = []
